@@ -37,7 +37,7 @@ fn run(case: &FaultCase, ctx: &Ctx, mode: Mode) -> Result<CaseInfo, Violation> {
         randoms: ctx.tier.pick(2, 8),
     };
     match case.hist.cfg.hasher {
-        HasherKind::Blake3 => run_fault_case::<B3>(case, &fp, &ctx.scratch),
+        HasherKind::Blake3 | HasherKind::TailLabel => run_fault_case::<B3>(case, &fp, &ctx.scratch),
         HasherKind::Sha2 => run_fault_case::<S2>(case, &fp, &ctx.scratch),
     }
 }
